@@ -146,6 +146,14 @@ impl<'input, E> Iterator for Matcher<'input, '_, E> {
                 }));
             }
 
+            if !text.is_char_boundary(longest_match) {
+                // Without the `unicode` feature the automaton works on bytes, so a match may end
+                // inside a multi-byte character, where the text cannot be split into `&str`s.
+                return Some(Err(ParseError::InvalidToken {
+                    location: start_offset,
+                }));
+            }
+
             let result = &text[..longest_match];
             let remaining = &text[longest_match..];
             let end_offset = start_offset + longest_match;
